@@ -463,7 +463,37 @@ type tr struct {
 	types  map[string]string // printed Go expr -> "Z"|"bool"|"str"|"bytes"
 	calls  map[string]string // Go callee printed -> Coq function
 	locals map[string]string // identifiers bound by let
+	ignore []string          // substrings of side-effect-only statements that may be skipped
 	err    error
+}
+
+func (t *tr) ignorable(s ast.Stmt) bool {
+	txt := printNode(t.fset, s)
+	switch x := s.(type) {
+	case *ast.ExprStmt, *ast.DeferStmt, *ast.DeclStmt:
+		for _, pat := range t.ignore {
+			if strings.Contains(txt, pat) {
+				return true
+			}
+		}
+	case *ast.IfStmt:
+		if x.Else != nil || x.Init != nil {
+			return false
+		}
+		for _, b := range x.Body.List {
+			if !t.ignorable(b) {
+				return false
+			}
+		}
+		return len(x.Body.List) > 0
+	case *ast.AssignStmt:
+		for _, pat := range t.ignore {
+			if strings.Contains(txt, pat) {
+				return true
+			}
+		}
+	}
+	return false
 }
 
 func (t *tr) fail(format string, a ...interface{}) string {
@@ -642,6 +672,9 @@ func (t *tr) stmts(list []ast.Stmt, rest string) string {
 		return rest
 	}
 	s, tail := list[0], list[1:]
+	if t.ignorable(s) {
+		return t.stmts(tail, rest)
+	}
 	switch x := s.(type) {
 	case *ast.ReturnStmt:
 		if len(x.Results) == 1 {
@@ -747,10 +780,11 @@ type funcSpec struct {
 	leaves          map[string]string
 	types           map[string]string
 	calls           map[string]string
+	ignore          []string
 }
 
 func (o *out) newTr(p *pkgInfo, fs funcSpec) *tr {
-	t := &tr{fset: p.fset, dir: fs.dir, leaves: fs.leaves, types: fs.types, calls: fs.calls, locals: map[string]string{}}
+	t := &tr{fset: p.fset, dir: fs.dir, leaves: fs.leaves, types: fs.types, calls: fs.calls, locals: map[string]string{}, ignore: fs.ignore}
 	if t.leaves == nil {
 		t.leaves = map[string]string{}
 	}
@@ -779,35 +813,43 @@ func (o *out) decisionFunc(fs funcSpec) {
 	o.f("Definition %s %s : %s :=\n  %s.\n(* from %s:%s.%s *)\n", fs.coqName, fs.params, fs.retType, body, fs.dir, fs.recv, fs.name)
 }
 
-// condOf translates the condition of the if-statement inside the function whose printed
-// condition contains `marker` (first match in source order, nested statements included).
-func (o *out) condOf(fs funcSpec, marker string) {
+// condOf translates the condition of the nth (0-based) if/for statement of the function whose printed
+// condition contains `marker` (source order, nested statements included). Markers should name the
+// variables involved, not operators or literals, so that a changed comparison is translated rather than lost.
+func (o *out) condOf(fs funcSpec, marker string, nth ...int) {
 	p, fd := findFunc(fs.dir, fs.recv, fs.name)
 	if fd == nil {
 		o.brokenDef(fs.coqName, "function "+fs.dir+":"+fs.recv+"."+fs.name+" not found")
 		return
 	}
+	want := 0
+	if len(nth) > 0 {
+		want = nth[0]
+	}
 	var found ast.Expr
+	k := 0
 	ast.Inspect(fd.Body, func(n ast.Node) bool {
 		if found != nil {
 			return false
 		}
+		var cond ast.Expr
 		if is, ok := n.(*ast.IfStmt); ok {
-			if strings.Contains(printNode(p.fset, is.Cond), marker) {
-				found = is.Cond
-				return false
-			}
+			cond = is.Cond
 		}
 		if fs, ok := n.(*ast.ForStmt); ok && fs.Cond != nil {
-			if strings.Contains(printNode(p.fset, fs.Cond), marker) {
-				found = fs.Cond
+			cond = fs.Cond
+		}
+		if cond != nil && strings.Contains(printNode(p.fset, cond), marker) {
+			if k == want {
+				found = cond
 				return false
 			}
+			k++
 		}
 		return true
 	})
 	if found == nil {
-		o.brokenDef(fs.coqName, "no if-condition containing `"+marker+"` in "+fs.name)
+		o.brokenDef(fs.coqName, fmt.Sprintf("no if/for condition #%d containing `%s` in %s", want, marker, fs.name))
 		return
 	}
 	t := o.newTr(p, fs)
@@ -884,6 +926,60 @@ func (o *out) callOrder(dir, recv, name, coqName string, names []string) {
 	})
 	o.f("Definition %s : list Z := [%s]. (* %s:%s.%s calls: %s ; index into [%s] *)\n", coqName, strings.Join(seq, "; "), dir, recv, name,
 		strings.Join(seqNames, " "), strings.Join(names, " "))
+}
+
+// selectArmExits: in function fn, find the select arm whose communication contains `marker`; emit a bool that is
+// true iff executing that arm leaves the enclosing for loop (return, or break/goto with a label).
+func (o *out) selectArmExits(dir, recv, name, marker, coqName string) {
+	p, fd := findFunc(dir, recv, name)
+	if fd == nil {
+		o.brokenDef(coqName, "function "+dir+":"+recv+"."+name+" not found")
+		return
+	}
+	found := false
+	exits := false
+	ast.Inspect(fd.Body, func(n ast.Node) bool {
+		cc, ok := n.(*ast.CommClause)
+		if !ok || cc.Comm == nil || !strings.Contains(printNode(p.fset, cc.Comm), marker) {
+			return true
+		}
+		found = true
+		for _, st := range cc.Body {
+			switch x := st.(type) {
+			case *ast.ReturnStmt:
+				exits = true
+			case *ast.BranchStmt:
+				if x.Label != nil && (x.Tok == token.BREAK || x.Tok == token.GOTO) {
+					exits = true
+				}
+			}
+		}
+		return false
+	})
+	if !found {
+		o.brokenDef(coqName, "no select arm on `"+marker+"` in "+name)
+		return
+	}
+	o.f("Definition %s : bool := %v. (* %s:%s.%s select arm on %s leaves the loop *)\n", coqName, exits, dir, recv, name, marker)
+}
+
+// hasStmt emits a bool: does the function contain a statement whose printed form equals stmt?
+func (o *out) hasStmt(dir, recv, name, stmt, coqName string) {
+	p, fd := findFunc(dir, recv, name)
+	if fd == nil {
+		o.brokenDef(coqName, "function "+dir+":"+recv+"."+name+" not found")
+		return
+	}
+	found := false
+	ast.Inspect(fd.Body, func(n ast.Node) bool {
+		if st, ok := n.(ast.Stmt); ok {
+			if strings.Join(strings.Fields(printNode(p.fset, st)), " ") == stmt {
+				found = true
+			}
+		}
+		return !found
+	})
+	o.f("Definition %s : bool := %v. (* %s:%s.%s contains `%s` *)\n", coqName, found, dir, recv, name, stmt)
 }
 
 // ---------------------------------------------------------------- main
